@@ -1,3 +1,4 @@
+import Gtree.Lemmas.EntryFacts
 import Gtree.Lemmas.SourceRefines
 import Gtree.Lemmas.Distinct
 import Gtree.Lemmas.Output
@@ -130,4 +131,14 @@ theorem C03_root_validation_is_the_source (s : Store) (i : Nat) :
     Src.validateTreeRoot none = some .ErrNilNode ∧
     Src.validateTreeRoot ((s.get? i).map pnodeSrc) = (s.validateRoot (some i)).bind sentinelSrc :=
   ⟨validateTreeRoot_nil, validateTreeRoot_src s i⟩
+end Gtree
+
+namespace Gtree
+/-- Fact regenerated from the sources on this run: under both names of every entry point, Output builds its configuration with `newConfig` and Mkdir / Verify / Walk with `newConfigWithoutEncode`. -/
+theorem C03_facts_entry_points_configuration : Facts.entryConfig = expectedEntryConfig := entryConfig_as_expected
+
+/-- Fact regenerated from the sources on this run: every deprecated alias (`Output`, `Mkdir`, `Verify`, `Walk`,
+    `OutputProgrammably`, `MkdirProgrammably`, `VerifyProgrammably`, `WalkProgrammably`, `WalkIterProgrammably`) has, word for
+    word, the body of the function that replaces it. -/
+theorem C03_facts_aliases_identical : Facts.aliasBodiesEqual.all (fun e => e.2) = true := aliases_identical
 end Gtree
